@@ -75,12 +75,13 @@ def select(ctx, all_items):
         order = list(all_items)
         rng.shuffle(order)
         for it in order:
-            keys = {("fg", it.dims[0], it.dims[2]), ("fs", it.dims[0], it.dims[1], it.dims[4]), ("fn", it.dims[0], it.dims[3])}
+            keys = {("fg", it.dims[0], it.dims[2]), ("fs", it.dims[0], it.dims[1], it.dims[4]), ("fn", it.dims[0], it.dims[3]),
+                    ("fd", it.dims[0], it.dims[1], tuple(it.derives))}
             if not keys <= seen:
                 seen |= keys
                 core.append(it)
         extra = [it for it in order if it not in core]
-        return core + extra[: max(0, 900 - len(core))]
+        return core + extra[: max(0, 1500 - len(core))]
     return list(all_items)
 
 
